@@ -25,7 +25,7 @@ Control == Of("scs", {"0", "1", "128", "4096", "max31", "max32"}, {"ok"})
       \cup Of("uc", {"ping"}, {"0", "1", "2", "3", "4", "5", "6", "7", "8"})
       \cup {Msg("uc", "begin", "2"), Msg("uc", "begin", "6"), Msg("uc", "ff", "2"), Msg("uc", "buflen", "8")}
 Others == Of("other", {ToString(t) : t \in TypePool}, {"empty", "1", "16"})
-Commands == Of("cmd", {"connect"}, {"ok", "ok3", "nolast", "badmarker", "null", "noapp", "noend", "deep", "deepok",
+Commands == Of("cmd", {"connect"}, {"ok", "ok3", "nolast", "badmarker", "null", "noapp", "noend", "deep", "deeparr", "deepmix", "deepok",
                                      "appnum", "appbool", "appobj", "tcnum", "oestr", "fvobj"})
        \cup Of("cmd", {"createStream"}, {"ok", "nolast"})
        \cup Of("cmd", {"publish"}, {"ok", "nolast", "noname", "badmarker", "numforstr", "longstr", "emptyname", "query", "dots", "cutstr", "lstrname"})
